@@ -17,6 +17,7 @@ C18-a allocation: a device-derived make length whose type and constant operands 
 C18-b division: a device-derived divisor must be proven non-zero by a dominating comparison.
 C18-c chain walks / steps: a loop that advances through a slice by a device-derived step must have that step proven positive.
 C18-e index: a device-derived value used as the index of a slice, array or string element (s[i], not s[a:b]) must be bounded: a dominating comparison with a value that is not itself unbounded device data (len(table), len(table)-1, a validated field), a mask/shift/narrow type that keeps it below the length of a fixed-size array, or the counter of a loop that appends to the indexed slice once per iteration before indexing it.
+C18-f a pointer that an in-package decoder returns together with an error (nil on its error paths) is dereferenced only where that error is known to be nil.
 Sub-slice expressions s[a:b] with device-derived bounds, decompression bombs and time bounds are not covered (see DESIGN.md).`)
 }
 
@@ -89,6 +90,9 @@ func runC18(w *World, r *Report) {
 	if nloops == 0 {
 		r.Ok("C18-d", "filesystem readers", "no loop whose only exits depend on a device read", "filesystem", fmt.Sprintf("%d functions", len(all)))
 	}
+	nd := nilAfterError(w, r, "C18-f", all)
+	r.Extra["decoder_results_examined"] = nd
+	r.Floor("C18-f", nd, 20)
 	r.Extra["functions_in_scope"] = total
 	r.Floor("C18 scope", total, 150)
 	r.Floor("C18-a", r.countRule("C18-a"), 10)
